@@ -38,6 +38,9 @@ func initDenied(path string) bool {
 	case "github.com/valyala/fastjson", "github.com/samber/lo", "github.com/valyala/fastjson/fastfloat":
 		return false
 	}
+	if strings.HasPrefix(path, "github.com/negasus/haproxy-spoe-go/") {
+		return false // pure Go: pools and error values
+	}
 	return true
 }
 
@@ -46,7 +49,7 @@ var initAllowedStd = map[string]bool{
 	"io": true, "strconv": true, "sort": true, "container/heap": true, "container/list": true,
 	"math": true, "slices": true, "maps": true, "bufio": true, "bytes": true, "strings": true,
 	"io/fs": true, "internal/oserror": true, "context": true, "encoding/hex": true, "encoding/base64": true,
-	"path/filepath": true, "unicode/utf8": true, "math/bits": true,
+	"path/filepath": true, "unicode/utf8": true, "math/bits": true, "net/textproto": true,
 }
 
 // packages whose globals persist across paths of one worker (init once; treated as immutable).
@@ -108,6 +111,9 @@ func (i *interpreter) ensureInit(pkg *ssa.Package, g *ssa.Global) {
 		}
 		return
 	}
+	if i.deniedInit != nil {
+		delete(i.deniedInit, pkg)
+	}
 	if fn := pkg.Func("init"); fn != nil {
 		saved := i.W.m.cur
 		_ = saved
@@ -128,6 +134,15 @@ func benignGlobal(path, name string) bool {
 	}
 	if strings.HasPrefix(path, "github.com/rs/zerolog") || strings.HasPrefix(path, "go.opentelemetry.io") {
 		return true
+	}
+	switch path {
+	case "internal/cpu", "internal/bytealg":
+		// CPU feature flags in their zero state select the portable code paths
+		return true
+	case "github.com/go-playground/validator/v10":
+		// validator.New() runs in package initialisers of the repository and walks the (empty)
+		// built-in tables; using the validator itself fails closed (see intercepts)
+		return name == "bakedInValidators" || name == "bakedInAliases"
 	}
 	return false
 }
